@@ -1,5 +1,6 @@
 import RdsProofs.Reach
 import RdsProofs.CellsProofs
+import RdsProofs.TableC02
 /-!
 # Property C02 — PS/RT/PTYN characters land in the addressed cells via the RDS charset
 
@@ -7,11 +8,17 @@ import RdsProofs.CellsProofs
 `expectedText`: addressed cells (table `addressed`, C02's list of positions) are the closed form `cellSpec` of the old
 cell and the received byte; every other cell of every text is unchanged (apart from an RT A/B switch first emptying
 the selected buffer). `C02_error_free` is the property's wording for an error-free reception. The charset itself
-(`cfg.g0` = the RDS G0 table) is the table theorem `C02_charset` of RdsProofs/TableProofs.lean (see RdsProps/Tables.lean).
+(`cfg.g0` = the RDS G0 table) is the table theorem `C02_charset` of RdsProofs/TableC02.lean: the table read out of the compiled library (every byte, every lane,
+lane-independent) equals the hand-written RDS G0 reference; `C02_stored`: exactly 0x0D and bytes ≥ 0x20 are stored.
 -/
 -- THEOREM: RDS.C02
 -- THEOREM: RDS.C02_error_free
 -- THEOREM: RDS.updateSingle_cellSpec
+-- THEOREM: RDS.C02_charset
+-- THEOREM: RDS.C02_stored
+-- THEOREM: RDS.C02_eol
+-- THEOREM: RDS.C02_no_nul
+-- THEOREM: RDS.C02_lane_independent
 namespace RDS
 
 /-- C02 (with C06, C08) for every history and every next call -/
